@@ -19,7 +19,7 @@
 san_passes() {
   case "$1" in
     C01) echo "asan:workloads:45 memcheck:workloads:60" ;;
-    C05) echo "tsan:stress:120" ;;
+    C05) echo "tsan:stress,ext_threads:150" ;;
     C07) echo "tsan:mt:120" ;;
     C09) echo "asan:tamper,leak:60 memcheck:tamper:60" ;;
     C10) echo "tsan:stress,sched:120 miri:-:0" ;;
